@@ -15,6 +15,7 @@ import GitAiModel.Driver.Redact
 import GitAiModel.Driver.Routing
 import GitAiModel.Driver.Profile
 import GitAiModel.Driver.Sys
+import GitAiModel.Driver.Conc
 namespace GitAi.Driver
 open Lean
 
@@ -31,7 +32,8 @@ def handlers : List (String → Json → Option (Except String Json)) := [
   RedactD.handle,
   RoutingD.handle,
   ProfileD.handle,
-  SysD.handle
+  SysD.handle,
+  ConcD.handle
 ]
 
 end GitAi.Driver
